@@ -676,6 +676,12 @@ func definitelyDistinct(i, j *Term) bool {
 	if i == j {
 		return false
 	}
+	if i.Op == "ite" {
+		return definitelyDistinct(i.Args[1], j) && definitelyDistinct(i.Args[2], j)
+	}
+	if j.Op == "ite" {
+		return definitelyDistinct(i, j.Args[1]) && definitelyDistinct(i, j.Args[2])
+	}
 	if i.IsConst() && j.IsConst() {
 		return i.Val.Cmp(j.Val) != 0
 	}
@@ -730,6 +736,22 @@ func ConstArray(s *Sort, v *Term) *Term {
 	return TT.intern(&Term{Op: "constarr", Sort: s, Args: []*Term{v}})
 }
 
+func containsOp(t *Term, op string, seen map[*Term]bool) bool {
+	if seen[t] {
+		return false
+	}
+	seen[t] = true
+	if t.Op == op {
+		return true
+	}
+	for _, a := range t.Args {
+		if containsOp(a, op, seen) {
+			return true
+		}
+	}
+	return false
+}
+
 func Forall(bound []*Term, body *Term, pats ...[]*Term) *Term {
 	if body == True {
 		return True
@@ -737,6 +759,20 @@ func Forall(bound []*Term, body *Term, pats ...[]*Term) *Term {
 	if !body.hasBound {
 		return body
 	}
+	// 'if' cannot be used in patterns
+	var ok [][]*Term
+	for _, p := range pats {
+		bad := false
+		for _, x := range p {
+			if containsOp(x, "ite", map[*Term]bool{}) || !x.hasBound {
+				bad = true
+			}
+		}
+		if !bad {
+			ok = append(ok, p)
+		}
+	}
+	pats = ok
 	return TT.intern(&Term{Op: "forall", Sort: BoolSort, Args: []*Term{body}, Bound: bound, Pats: pats})
 }
 func Exists(bound []*Term, body *Term) *Term {
@@ -1059,4 +1095,58 @@ func Size(ts ...*Term) int {
 		walk(t)
 	}
 	return len(seen)
+}
+
+// ---------------------------------------------------------------------------
+// Named arrays: complex array-valued terms read under quantifiers are given a name (a fresh constant
+// L with the definition L = A added to every query that mentions L). This keeps triggers free of
+// 'ite' / 'store' and is an equisatisfiable transformation.
+
+var arrayNames = map[*Term]*Term{}
+var arrayDefs = map[*Term]*Term{}
+var arrayMu sync.Mutex
+
+func NameArray(A *Term) *Term {
+	if A.Op == "var" || A.hasBound {
+		return A
+	}
+	arrayMu.Lock()
+	defer arrayMu.Unlock()
+	if l, ok := arrayNames[A]; ok {
+		return l
+	}
+	l := Var(FreshName("arr"), A.Sort)
+	arrayNames[A] = l
+	arrayDefs[l] = A
+	return l
+}
+
+// namedDefs returns the definitions of all named arrays reachable from the assertions.
+func namedDefs(asserts []*Term) []*Term {
+	var out []*Term
+	seen := map[*Term]bool{}
+	var walk func(t *Term)
+	walk = func(t *Term) {
+		if seen[t] {
+			return
+		}
+		seen[t] = true
+		if t.Op == "var" {
+			arrayMu.Lock()
+			d, ok := arrayDefs[t]
+			arrayMu.Unlock()
+			if ok {
+				out = append(out, Eq(t, d))
+				walk(d)
+			}
+			return
+		}
+		for _, a := range t.Args {
+			walk(a)
+		}
+	}
+	for _, a := range asserts {
+		walk(a)
+	}
+	return out
 }
